@@ -56,6 +56,25 @@ def main(argv=None):
 
     out = runner.run_batch(a.prop, a.tier, a.seed, runs=a.runs, workers=a.workers, wall_cap=a.wall,
                            quiet=not a.noisy, write_evidence=not a.no_evidence)
+    if a.tier == "thorough" and a.runs is None and not a.no_evidence:
+        # determinism self-test as part of the thorough tier: same seeds, other hash seeds / worker counts, fresh
+        # interpreters, plus generate -> replay digest round trip
+        import subprocess
+
+        p = subprocess.run([sys.executable, "-m", "selftest.determinism", a.prop, "--runs", "48", "--seeds",
+                            str(a.seed)], cwd=os.path.dirname(os.path.dirname(os.path.abspath(__file__))),
+                           stdout=subprocess.PIPE, stderr=subprocess.DEVNULL, text=True)
+        ok = p.returncode == 0 and "SELFTEST PASSED" in p.stdout
+        ev_path = os.path.join(runner.VERIF, "evidence", f"{a.prop}.json")
+        ev_all = json.load(open(ev_path))
+        ev_all["coverage"]["determinism_selftest"] = {
+            "passed": ok, "what": "48 runs x (16 workers/hash seed 0, 1 worker/hash seed 1, 5 workers/random hash "
+                                  "seed, 16 workers/hash seed 12345) in fresh interpreters: identical per-run event-log "
+                                  "digests; generate -> replay digest round trip"}
+        json.dump(ev_all, open(ev_path, "w"), indent=1, sort_keys=True)
+        print(f"determinism self-test: {'passed' if ok else 'FAILED'}")
+        if not ok:
+            out["harness_errors"].append("determinism self-test failed:\n" + p.stdout[-1500:])
     if a.digests:
         for r in out["results"]:
             print(f"DIGEST {r['index']} {r['digest']}")
